@@ -177,6 +177,85 @@ func (w *World) monitorConnect() {
 			}
 		}
 	}
+	// after a failed connect attempt, and until the read routine starts the next
+	// one, non-persisted requests fail with ErrDown instead of waiting. An
+	// attempt failed when ReadSlices dialled and returned an error without ever
+	// getting to read beyond the CONNACK.
+	{
+		type span struct{ from, to int }
+		var down []span
+		rsCall := -1
+		for i, e := range w.log {
+			if e.K == "call" && e.S == "rs" {
+				rsCall = i
+				if n := len(down); n > 0 && down[n-1].to < 0 {
+					down[n-1].to = i
+				}
+			}
+			if e.K == "crash" {
+				if n := len(down); n > 0 && down[n-1].to < 0 {
+					down[n-1].to = i
+				}
+				rsCall = -1
+			}
+			if e.K == "ret" && e.S == "rs" && rsCall >= 0 && e.R != "nil" && !strings.HasPrefix(e.R, "BigMessage") && !strings.Contains(e.R, "ErrClosed") {
+				lastDial, conn := -1, 0
+				for j := rsCall; j < i; j++ {
+					if w.log[j].K == "dial" {
+						lastDial, conn = j, w.log[j].C
+					}
+				}
+				if lastDial < 0 {
+					continue
+				}
+				failed := true
+				if conn != 0 {
+					got := 0
+					for j := lastDial; j < i; j++ {
+						if f := w.log[j]; f.K == "read" && f.C == conn {
+							if got >= 4 || len(f.B) > 4 {
+								failed = false // it got to read past the handshake: connect() had completed
+							}
+							got += len(f.B)
+						}
+					}
+				}
+				if failed {
+					down = append(down, span{i, -1})
+				}
+			}
+		}
+		for _, sp := range down {
+			to := sp.to
+			if to < 0 {
+				to = len(w.log)
+			}
+			for j := sp.from; j < to; j++ {
+				c := w.log[j]
+				if c.K != "call" || c.T == "reader" || strings.HasPrefix(c.S, "pub1") || strings.HasPrefix(c.S, "pub2") || c.S == "rs" || c.S == "close" || c.S == "disc" || c.S == "online" || c.S == "offline" {
+					continue
+				}
+				// its return
+				res := ""
+				for k := j + 1; k < len(w.log); k++ {
+					if r := w.log[k]; r.K == "ret" && r.T == c.T && r.N == c.N && r.S == c.S && r.Gen == c.Gen {
+						res = r.R
+						break
+					}
+				}
+				if res == "" || strings.Contains(res, "ErrDown") || strings.Contains(res, "ErrClosed") || strings.Contains(res, "ErrMax") || strings.Contains(res, "ErrCanceled") || strings.Contains(res, "Deny") {
+					if res != "" {
+						continue
+					}
+					if w.quiet && !w.horizonHit {
+						w.Violate("C18", "request-waits-after-failed-attempt", "%s %s issued at step %d, after the connect attempt had failed at step %d, never returned", c.T, c.S, c.Step, w.log[sp.from].Step)
+					}
+					continue
+				}
+				w.Violate("C18", "no-errdown-after-failed-attempt", "%s %s issued at step %d, after the connect attempt had failed at step %d and before the next one, returned %s instead of ErrDown", c.T, c.S, c.Step, w.log[sp.from].Step, res)
+			}
+		}
+	}
 	// ErrDown needs a failed connect attempt
 	failSeen := false
 	for _, e := range w.log {
@@ -425,7 +504,7 @@ func init() {
 					{Name: "B", Ops: []Op{{Kind: "pub2", Topic: "v/1", Msg: []byte("V1-bbbb")}, {Kind: "pub2", Topic: "v/2", Msg: []byte("V2-bbbb")}, {Kind: "pub2", Topic: "v/3", Msg: []byte("V3-bbbb")}}},
 				},
 				Gens:    [][]ActorSpec{{{Name: "reader", Reader: &ReaderSpec{Backoff: true}}, {Name: "A", Ops: []Op{{Kind: "pub1", Topic: "w/5", Msg: []byte("W5-aaaa")}, {Kind: "pub2", Topic: "v/4", Msg: []byte("V4-bbbb")}}}}},
-				Faults:  Faults{Cut: true, NoResponse: true, Connacks: [][]byte{{0x20, 2, 0, 3}}, Store: map[string]bool{"save": true}, Crash: true},
+				Faults:  Faults{Cut: true, NoResponse: true, Connacks: [][]byte{{0x20, 2, 0, 3}}, Store: map[string]bool{"save": true, "delete": true}, Crash: true},
 				Horizon: 2500,
 				Final: func(w *World) {
 					w.monitorWire()
